@@ -1,7 +1,8 @@
 """C09 - celestial coordinate conversions are invertible isometries with correct poles (E1 + E2)."""
-import itertools
 import math
+import os
 import random
+import traceback
 
 import numpy as np
 
@@ -17,14 +18,21 @@ RULE = (
     "10 deg of a source or target pole or has lon in {0,360}.  euler-arrays: the same points in windows of "
     "3 as ndarray/list input, compared bit-for-bit with the scalar calls.  euler-pairs: every unordered "
     "pair of points of each conversion (isometry); non-trivial = separation < 1e-3 or > 179 deg or a member "
-    "within 1 deg of a target pole.  chains (histories): BFS over ALL conversion chains of bounded length "
-    "in the frame graph eq/gal/ec (six euler wrappers) + eq<->sdss + eq<->xyz, from every start frame in "
-    "{eq,gal,ec} x epoch x group of 4 start points, arrays handed from one conversion to the next.  "
+    "within 1 deg of a target pole.  chains (histories): BFS over ALL conversion chains of length <= 4 "
+    "(quick) / 6 (thorough; merged below depth 2 only when the reached arrays are bit-identical) in the "
+    "frame graph eq/gal/ec (six euler wrappers) + eq<->sdss + eq<->xyz, from every start frame in "
+    "{eq,gal,ec} x epoch x group of 4 start points (BASE + small caps around the poles of all three "
+    "systems), arrays handed from one conversion to the next; every prefix is compared with the reference "
+    "rotation of the start points, with the direct conversion, with the start when the chain closes, and "
+    "all arrays handed out earlier must be bit-unchanged.  "
     "sdss / xyz: BASE + caps around the equatorial poles, the survey poles (95,0)/(275,0), the ceta=+-180 "
     "cut; direct (clambda,ceta) and (x,y,z) lattices for the inverse directions; windows; all pairs.  "
-    "rotate: full product of Euler angles {0,+-10,90,123,180,270,360}^3 x (BASE + caps around the source "
-    "and target poles of that rotation); all pairs of a 16-point subset.  shiftlon: full product lon "
-    "alphabet x shift alphabet (incl. None) x wrap x {shiftlon,shiftra} x {scalar, array}."
+    "rotate: full product of Euler angles {0,+-10,8,90,123,180,270,360}^3 (thorough: + 33.3 and a seed-chosen "
+    "angle) x (BASE + caps around the source and target poles of that rotation + the pole pre-images "
+    "((90-phi)%360 | (270-phi)%360, +-(90-|theta|)) in plain decimal arithmetic); all pairs of a 16-point "
+    "subset.  shiftlon: full product lon alphabet x shift alphabet (incl. None, int and float, |shift| > 360, "
+    "shifts that leave lon-shift a tiny negative number) x wrap x {shiftlon,shiftra} x {scalar, ndarray "
+    "windows, list}."
 )
 ASSUMPTIONS = [
     "reference rotations are built in 80-bit long double from the constants documented in the euler "
@@ -36,7 +44,7 @@ ASSUMPTIONS = [
     "all 'on the sky' distances are atan2(|a x b|, a.b) in long double",
     "tolerance 1e-5 deg for euler and its wrappers and for rotate, 1e-9 deg for the sdss and xyz conversions "
     "(property text); a chain is held to 1e-5 deg as soon as it contains one euler leg, else to 1e-9 deg, "
-    "for every chain length within the depth bound",
+    "for every chain length within the depth bound (design: 3/4 legs; 4/6 are run, measured worst 3e-6 deg)",
     "documented ranges: euler family lon in [0,360), lat in [-90,90]; eq2sdss clambda in [-90,90], ceta in "
     "[-180,180]; sdss2eq and xyz2eq ra in [0,360] (their own atbound(0,360) and the eq2sdss argument check "
     "admit 360.0), dec in [-90,90]; rotate documents no range: [0,360) x [-90,90] of its (a+psi+4pi) mod 2pi "
@@ -46,7 +54,8 @@ ASSUMPTIONS = [
     "= centre dec 32.5; x=-sin(clambda), y=cos(clambda)cos(ceta+32.5), z=cos(clambda)sin(ceta+32.5) in the "
     "frame whose x axis points to (ra 95, dec 0); stomp=True unit vectors are measured from ra 95",
     "the inverse of rotate(phi,theta,psi) is taken to be rotate(psi,-theta,phi) (inverse of the code's z-x-z "
-    "composition; the docstring names no inverse)",
+    "composition; the docstring names no inverse); the property claims no particular sense/sign convention "
+    "for rotate, so it is checked for finiteness, range, invertibility and isometry only, not against a matrix",
     "scalar and array forms must agree bit-for-bit element by element, and an input ndarray must be left "
     "unmodified (otherwise the caller's own round-trip comparison would be against altered data)",
     "shiftlon congruence: |out - (lon - shift) - 360k| <= 1e-12 deg (floating point rounding of the "
@@ -288,6 +297,18 @@ def sepclass(d):
     return "sep>=179"
 
 
+def guarded(fn):
+    """no esutil call of this property may raise on a valid input: report it on the case"""
+    def one(case, rec):
+        try:
+            return fn(case, rec)
+        except Exception as e:
+            tb = traceback.extract_tb(e.__traceback__)[-1]
+            rec.fail(case, "unexpected %s: %s [at %s:%d]" % (
+                type(e).__name__, str(e)[:200], os.path.basename(tb.filename), tb.lineno))
+    return one
+
+
 def main(ctx):
     from esutil import coords
 
@@ -416,7 +437,7 @@ def main(ctx):
             yield ("pt", sel, b1950, lon, lat)
 
     npts = len(euler_points(1, False, gen, bearings))
-    ctx.lattice("euler-points", eunits, one_euler, expand=expand_euler,
+    ctx.lattice("euler-points", eunits, guarded(one_euler), expand=expand_euler,
                 bounds=dict(selectors=6, epochs=["J2000", "B1950"], points_per_conversion=npts,
                             cap_distances_deg=DISTS, bearings=bearings, seeded_points=gen))
 
@@ -433,7 +454,7 @@ def main(ctx):
         for w in wins:
             yield ("arr", sel, b1950, form, w)
 
-    ctx.lattice("euler-arrays", aunits, one_euler, expand=expand_earr,
+    ctx.lattice("euler-arrays", aunits, guarded(one_euler), expand=expand_earr,
                 bounds=dict(window=3, forms=["ndarray", "list"]))
 
     # pairs: every unordered pair of the points of a conversion
@@ -450,7 +471,7 @@ def main(ctx):
         for q in qs:
             yield ("pair", sel, b1950, q, p)
 
-    ctx.lattice("euler-pairs", punits, one_euler, expand=expand_epair,
+    ctx.lattice("euler-pairs", punits, guarded(one_euler), expand=expand_epair,
                 bounds=dict(points_per_conversion=len(euler_points(1, False, gen, bearings, dists=pdists)),
                             cap_distances_deg=pdists))
 
@@ -621,7 +642,7 @@ def main(ctx):
             for q in u[2]:
                 yield ("pair", q, u[1])
 
-    ctx.lattice("sdss", sunits, one_sdss, expand=expand_sdss,
+    ctx.lattice("sdss", sunits, guarded(one_sdss), expand=expand_sdss,
                 bounds=dict(eq_points=len(sd_pts), survey_points=len(sv_pts), pair_points=len(sd_pairs),
                             cap_distances_deg=DISTS, bearings=bearings))
 
@@ -767,12 +788,12 @@ def main(ctx):
             for q in u[3]:
                 yield ("pair", u[1], q, u[2])
 
-    ctx.lattice("xyz", xunits, one_xyz, expand=expand_xyz,
+    ctx.lattice("xyz", xunits, guarded(one_xyz), expand=expand_xyz,
                 bounds=dict(eq_points=len(xy_pts), vectors=len(VECS), pair_points=len(xy_pairs),
                             stomp=[False, True], units=["deg"]))
 
     # ------------------------------------------------------------ rotate
-    ANG = [0.0, 10.0, -10.0, 90.0, 123.0, 180.0, 270.0, 360.0] + ctx.pick([], [33.3, -round(gen[1][0] / 2, 1)])
+    ANG = [0.0, 10.0, -10.0, 8.0, 90.0, 123.0, 180.0, 270.0, 360.0] + ctx.pick([], [33.3, -round(gen[1][0] / 2, 1)])
     RDISTS = [1e-9, 1e-6, 1e-3, 1.0]
 
     def rot_matrix(phi, theta, psi):
@@ -785,6 +806,11 @@ def main(ctx):
         pts = list(BASE) + list(gen)
         for c in [(0.0, 90.0), (0.0, -90.0), lonlat(M.T @ z), lonlat(M.T @ (-z))]:
             pts += cap(c, RDISTS, bearings)
+        # the same pole pre-images in plain decimal arithmetic (exact when the angles are decimal)
+        t = abs(theta) % 360.0
+        for d in (90.0 - t, t - 90.0, 270.0 - t, t - 270.0):
+            if abs(d) <= 90.0:
+                pts += [((90.0 - phi) % 360.0, d), ((270.0 - phi) % 360.0, d)]
         return dedupe(pts)
 
     RPAIR = dedupe(list(BASE[:13]) + list(gen))
@@ -878,7 +904,7 @@ def main(ctx):
             for j in range(i):
                 yield ("pair", u, RPAIR[j], RPAIR[i])
 
-    ctx.lattice("rotate", runits, one_rot, expand=expand_rot,
+    ctx.lattice("rotate", runits, guarded(one_rot), expand=expand_rot,
                 bounds=dict(angles=ANG, triples=len(runits), cap_distances_deg=RDISTS, bearings=bearings,
                             pair_points=len(RPAIR)))
 
@@ -973,7 +999,7 @@ def main(ctx):
             yield (fname, "ndarray", w, shift, wrap)
         yield (fname, "list", tuple(LONS[:4]), shift, wrap)
 
-    ctx.lattice("shiftlon", shunits, one_shift, expand=expand_shift,
+    ctx.lattice("shiftlon", shunits, guarded(one_shift), expand=expand_shift,
                 bounds=dict(lons=LONS, shifts=[repr(s) for s in SHIFTS], wrap=[True, False],
                             functions=["shiftlon", "shiftra"]))
 
